@@ -23,7 +23,7 @@ pub fn eq_counters(a: &[u8; NCOUNTERS], b: &[u8; NCOUNTERS]) -> bool { let mut i
 pub fn any_val() -> Node { match nd::below(3) { 0 => Node::Int(nd::below(4) as u64), 1 => Node::Null, _ => Node::Bool(true) } }
 
 pub fn reset_all(dict: &'static [&'static str]) {
-    arena::set_dict(dict); rec::reset(); leaf::reset(); unsafe { COUNTERS = [0; NCOUNTERS]; }
+    arena::set_dict(dict); nd::assume(arena::dict_ok()); rec::reset(); leaf::reset(); unsafe { COUNTERS = [0; NCOUNTERS]; }
 }
 
 /// the obligations shared by every derived target, given the result and the reference expectation
